@@ -355,7 +355,59 @@ def flag_locals(fn):
     return sorted(n for n, vs in cand.items() if n not in bad and n not in params and 1 <= len(vs) <= 3)[:3]
 
 
-def solve(fn):
+def param_ranges(db, fn, depth=0, seen=()):
+    """{param name: (lo, hi)} for integer parameters of `static` functions that every call site passes as a literal
+    constant (or as the caller's own unwritten parameter with such a range); functions with external linkage, whose address
+    is taken, or that nothing calls get none"""
+    cache = db.__dict__.setdefault('_param_ranges', {})
+    if fn.name in cache:
+        return cache[fn.name]
+    out = {}
+    if depth > 3 or fn.name in seen:
+        return out
+    idx = db.__dict__.get('_callidx')
+    if idx is None:
+        idx = db.__dict__['_callidx'] = ({}, set())
+        for f2 in db.fn.values():
+            for b2, i2, st in f2.stmts():
+                for n in nodes(st, lambda y: y.get('k') in ('call', 'fn')):
+                    if n['k'] == 'call' and n.get('callee'):
+                        idx[0].setdefault(n['callee'], []).append((f2, b2, i2, n))
+                    elif n['k'] == 'fn':
+                        idx[1].add(n.get('name'))
+    callers = idx[0].get(fn.name, [])
+    escapes = fn.name in idx[1] or not callers or not getattr(fn, 'static', False)     # only internal-linkage functions: every caller is in view
+    if callers and not escapes:
+        for pi, p in enumerate(fn.params):
+            if '*' in p['t'] or not any(t in p['t'] for t in ('int', 'long', 'enum', 'short', 'char')):
+                continue
+            vals = []
+            for cf, cb, ci, c in callers:
+                if pi >= len(c['args']):
+                    vals = None
+                    break
+                a = strip(c['args'][pi])
+                if is_lit(a):
+                    vals.append((a['v'], a['v']))
+                elif a is not None and a.get('k') == 'var' and a.get('decl') == 'param':
+                    r = param_ranges(db, cf, depth + 1, seen + (fn.name,)).get(a['name'])
+                    # the caller must not write its parameter
+                    written = any(strip(y['l']).get('k') == 'var' and strip(y['l'])['name'] == a['name'] for b2, i2, s2 in cf.stmts() for y in nodes(s2, lambda z: z.get('k') == 'assign'))
+                    if r is None or written:
+                        vals = None
+                        break
+                    vals.append(r)
+                else:
+                    vals = None
+                    break
+            if vals:
+                out[p['name']] = (min(v[0] for v in vals), max(v[1] for v in vals))
+    if depth == 0:
+        cache[fn.name] = out
+    return out
+
+
+def solve(fn, db=None):
     """fixpoint: returns (CTX: block -> {context key: state}, unsigned terms).  A context key is (edge, flags):
     a block that ends in a switch keeps one state per incoming edge (the join is delayed past the dispatch, so that a
     `state = K; goto DISPATCH;` reaches only the arm K), and states are kept apart by the constant values of the
@@ -410,8 +462,14 @@ def solve(fn):
                 k = (s, (e if s in split else None, flagkey(ns)))
                 outs[k] = outs[k].join(ns) if k in outs else ns
         return outs
+    dom = C.dominators(fn)
     init = Facts()
     typefacts(init)
+    if db is not None:
+        written = {strip(y['l'])['name'] for b2, i2, s2 in fn.stmts() for y in nodes(s2, lambda z: z.get('k') == 'assign') if strip(y['l']).get('k') == 'var'}
+        for pn, (lo, hi) in param_ranges(db, fn).items():
+            init.add(pn, '0', hi)
+            init.add('0', pn, -lo)
     CTX = {fn.entry: {(None, flagkey(init)): init}}
     work = [fn.entry]
     visits = {}
@@ -426,7 +484,9 @@ def solve(fn):
                     work.append(s)
                 continue
             m = old.join(ns)
-            if visits.get(s, 0) >= WIDEN_AFTER:
+            # widen only what grows around a loop (back edge: the target dominates the source); what changes at the loop's
+            # entry is driven by the enclosing loop, which has its own widening point
+            if visits.get(s, 0) >= WIDEN_AFTER and (s in dom.get(b, ()) or visits.get(s, 0) > 30):
                 m = old.widen(m)
             if visits.get(s, 0) > 80:
                 m = Facts()
@@ -448,10 +508,11 @@ def solve(fn):
     return CTX, uns
 
 
-def analyse(fn, on_index):
+def analyse(fn, on_index, db=None):
     """run the dataflow to a fixpoint, then call on_index(node, facts, block, idx) for every subscript
-    (once per context for the blocks that keep several)"""
-    CTX, uns = solve(fn)
+    (once per context for the blocks that keep several); with db, integer parameters that every library call site
+    passes as a constant start with that range"""
+    CTX, uns = solve(fn, db)
     for b in CTX:
         for key, st0 in CTX[b].items():
             fs = Facts(st0)
@@ -491,6 +552,16 @@ def pairs_of(fn):
                     len_of[name] = P.K(i0['base']).lstrip('*').strip('()') if i0.get('k') == 'member' else None
                 elif i0.get('k') == 'var' and i0['name'] in pairs and '*' in (strip(init) or {}).get('t', '*'):
                     pairs[name] = pairs[i0['name']]      # data = (unsigned char *) _data
+    # out-parameter views: f(..., &A, &L, ...) with A a byte pointer local and L an integer local (the consolidated line view)
+    for b, i, st in fn.stmts():
+        for c in nodes(st, lambda y: y.get('k') == 'call'):
+            for a1, a2 in zip(c['args'], c['args'][1:]):
+                a1, a2 = strip(a1), strip(a2)
+                if a1 is None or a2 is None or a1.get('k') != 'un' or a2.get('k') != 'un' or a1['op'] != '&' or a2['op'] != '&':
+                    continue
+                v1, v2 = strip(a1['e']), strip(a2['e'])
+                if v1.get('k') == 'var' and v2.get('k') == 'var' and 'char *' in (v1.get('t') or '') and '*' not in (v2.get('t') or '*') and any(t in v2.get('t', '') for t in ('long', 'int')):
+                    pairs.setdefault(v1['name'], v2['name'])
     for a, src in ptr_of.items():
         for l, src2 in len_of.items():
             if src and src == src2:
